@@ -53,21 +53,35 @@ pub fn run_history(out: &mut Out, bytes: &[u8], calls: &[Value]) {
 }
 
 fn random_history(rng: &mut Rng) -> (Vec<u8>, Vec<Value>) {
-    let len = if rng.chance(1, 3) { rng.below(10) } else { rng.below(65) };
+    // now and then a buffer far longer than the short ones, its length around a power of two (strings that cross 64 / 256 /
+    // 1024 bytes, offsets and limits beyond 16 / 64 / 256 words)
+    let long = rng.chance(1, 600);
+    let len = if long { (*rng.pick(&[60usize, 64, 124, 128, 252, 256, 260]) + rng.below(9)).saturating_sub(4) }
+              else if rng.chance(1, 3) { rng.below(10) } else { rng.below(65) };
     let mut bytes = Vec::with_capacity(len);
-    let style = rng.below(4);
+    let style = if long { 4 + rng.below(2) } else { rng.below(4) };
+    let nul_every = *rng.pick(&[40usize, 70, 150, 300, 1100, 5000]);
     for _ in 0..len {
         let b = match style {
             0 => *rng.pick(&[0u8, 0, 1, 2, 97, 98, 0xC3, 0xA9, 0xE2, 0x82, 0xAC, 0xF0, 0x9F, 0x98, 0x80, 0xFF, 0x80]),
             1 => *rng.pick(&[0u8, 0, 0, 1, 1, 2, 3, 4, 8, 16]),
             2 => if rng.chance(1, 6) { 0 } else { 97 + rng.below(26) as u8 },
-            _ => rng.next() as u8,
+            3 => rng.next() as u8,
+            4 => if rng.chance(1, nul_every) { 0 } else { 97 + rng.below(26) as u8 },
+            _ => if rng.chance(1, nul_every) { 0 } else { *rng.pick(&[97u8, 98, 0xC3, 0xA9, 0xE2, 0x82, 0xAC, 0x7f, 1]) },
         };
         bytes.push(b);
     }
     let n = 1 + rng.below(50);
     let mut calls = vec![];
     for _ in 0..n {
+        if long && rng.chance(1, 3) {
+            // requests and limits of the buffer's own magnitude
+            let words = (len / 4) as i64;
+            let k = *rng.pick(&[15i64, 16, 17, 31, 32, 33, 63, 64, 65, 255, 256, 257, words - 1, words, words + 1, words / 2]);
+            calls.push(if rng.chance(1, 2) { json!(["words", k.max(0)]) } else { json!(["set_limit", k.max(0)]) });
+            continue;
+        }
         let c = match rng.below(20) {
             0..=3 => json!(["word"]),
             4 => json!([*rng.pick(&["id", "bit32", "ext_inst_integer"])]),
